@@ -197,6 +197,8 @@ impl Default for PubPlan {
 pub enum CtlPlan {
     /// acknowledge normally
     Ack,
+    /// acknowledge; v5 SUBSCRIBE / UNSUBSCRIBE acknowledgements carry a reason string and a user property
+    AckDiag,
     /// fail with an application error
     Err,
     /// v5: answer with `disconnect_with(reason)`; v3: `disconnect()`
